@@ -173,11 +173,18 @@ func genSuggestUser(r *RNG, common []string) *sCase {
 	emit("  def self.stranger_s")
 	emit("    1")
 	emit("  end")
+	ti := r.Intn(depth)
+	target := chain[ti]
+	// the unrelated class also PRODUCES instances of the target class
+	emit("  def self.stranger_make")
+	emit("    " + target.name + ".new")
+	emit("  end")
+	emit("  def stranger_produce")
+	emit("    " + target.name + ".new")
+	emit("  end")
 	emit("  private")
 	def("  ", "stranger_p")
 	emit("end")
-	ti := r.Intn(depth)
-	target := chain[ti]
 	var instNames, staticNames, hiddenOfOthers []string
 	for i := 0; i <= ti; i++ {
 		instNames = append(instNames, chain[i].pub...)
@@ -209,17 +216,26 @@ func genSuggestUser(r *RNG, common []string) *sCase {
 	}
 	if r.Bool() {
 		sc.Kind = "user-instance"
-		emit("obj = " + target.name + ".new")
+		switch r.Intn(4) {
+		case 0:
+			emit("obj = Stranger.stranger_make")
+			sc.Kind = "user-instance-from-foreign-class-method"
+		case 1:
+			emit("obj = Stranger.new.stranger_produce")
+			sc.Kind = "user-instance-from-foreign-method"
+		default:
+			emit("obj = " + target.name + ".new")
+		}
 		sc.Recv = "obj"
 		sc.Must = instNames
-		sc.MustNot = append(append(append([]string{"stranger_i", "stranger_s", "stranger_p"}, hiddenOfOthers...), below...), minus(staticNames, instNames)...)
+		sc.MustNot = append(append(append([]string{"stranger_i", "stranger_s", "stranger_p", "stranger_make", "stranger_produce"}, hiddenOfOthers...), below...), minus(staticNames, instNames)...)
 		sc.MustNot = append(sc.MustNot, moduleFunctions...)
 		sc.UpperValue = true
 	} else {
 		sc.Kind = "user-class"
 		sc.Recv = target.name
 		sc.Must = append(staticNames, "new")
-		sc.MustNot = append(append([]string{"stranger_i", "stranger_s", "stranger_p"}, below...), minus(instNames, staticNames)...)
+		sc.MustNot = append(append([]string{"stranger_i", "stranger_s", "stranger_p", "stranger_make", "stranger_produce"}, below...), minus(instNames, staticNames)...)
 		sc.MustNot = append(sc.MustNot, moduleFunctions...)
 		sc.Common = nil
 	}
